@@ -41,14 +41,25 @@ func vfRunC07Case(env *vfEnv, part *vfPart, caseNo int) {
 	cfg.AofTime = uint([]int{0, 1, 1, 2, 3}[rng.Intn(5)])
 	cfg.AofBuf = uint([]int{64, 128, 4096}[rng.Intn(3)])
 	cfg.RewriteSize = uint([]int{12 + 64*6, 12 + 64*15, 12 + 64*40, 8 << 20}[rng.Intn(4)])
+	stats0 := map[string]int64{}
 	prof := vfE4Profile()
+	// a third of the cases has no re-entrant re-locks / updates and a third no PIPELINE operations: every
+	// clause on every key of such a case is judged without the attribution to the open findings about them
+	if rng.Chance(33) {
+		prof.NoRelock = true
+		stats0["cases_without_relock_or_update"] = 1
+	}
+	if rng.Chance(33) {
+		prof.NoPipeline = true
+		stats0["cases_without_pipeline"] = 1
+	}
 	if os.Getenv("VERIF_E4_PLAIN") != "" {
 		prof.NoRelock = true
 	}
 	if os.Getenv("VERIF_E4_NOPIPE") != "" {
 		prof.NoPipeline = true
 	}
-	stats := map[string]int64{}
+	stats := stats0
 	var findings []vfE4Finding
 	doc := map[string]interface{}{"case": caseNo, "seed": env.Seed, "property": "C07",
 		"config": fmt.Sprintf("shards=%d fastkeys=%d aoftime=%d aofbuf=%d rewritesize=%d", cfg.DBConcurrent, cfg.FastKeys, cfg.AofTime, cfg.AofBuf, cfg.RewriteSize)}
